@@ -662,6 +662,11 @@ fn writer_task(shared: &Arc<Shared>, sc: &Scenario, path: &Path, record_sites: b
                 match r {
                     Ok(Ok(w)) => {
                         set_handler(None);
+                        {
+                            use std::os::unix::io::AsRawFd;
+                            let keep: Vec<i32> = local.borrow().observer.file.as_ref().map(|f| vec![f.as_raw_fd()]).unwrap_or_default();
+                            vworld::close_fds_pointing_to(path, &keep);
+                        }
                         let after = file_state(path);
                         let mut ex = extra.lock().unwrap();
                         if was_valid {
